@@ -72,7 +72,8 @@ def run(res, tier):
     n = 200 if tier == "quick" else 6000
     rng = R.make("C17")
     from .c16 import CORPUS
-    sources = [("corpus", s) for s in CORPUS] + [("layout", s) for s in LAYOUT]
+    sources = [("corpus", s) for s in CORPUS] + [("layout", s) for s in LAYOUT] + [("zoo-entry", s) for s in pysrc.zoo_programs()]
+    n += len(sources) - len(CORPUS)
     while len(sources) < n + len(CORPUS):
         sources.append(pysrc.generate(rng))
     evals, nontrivial, kinds = 0, set(), {}
